@@ -157,9 +157,9 @@ Section Serial.
           destruct (Hold r eq_refl). auto.
         - unfold set_wpc. rewrite Hw. reflexivity.
         - unfold set_wpc. rewrite Hw. simpl. apply (K6m s I). }
-      destruct (w_pc w) as [| |r|] eqn:P; try discriminate.
-      + destruct (w_stopped w); [inversion H; subst; apply LOC; intros; discriminate|].
-        destruct (child_alive s (w_child w)); [discriminate|]. inversion H; subst. apply LOC; intros; discriminate.
+      destruct (w_pc w) as [| | |r|] eqn:P; try discriminate.
+      + destruct (child_alive s (w_child w)); inversion H; subst; apply LOC; intros; discriminate.
+      + destruct (w_stopped w); inversion H; subst; apply LOC; intros; discriminate.
       + destruct (w_stopped w); inversion H; subst; apply LOC; intros r X; try discriminate.
         inversion X; subst; reflexivity.
       + destruct r; try (destruct (rstep' (TW i) s _) as [[s1 r']|] eqn:Hs; [|discriminate]; inversion H; subst; clear H;
@@ -261,9 +261,9 @@ Section Serial.
       inversion H; reflexivity.
     - destruct (nth_error (watchers s) i) as [w|] eqn:Hw; [|discriminate].
       assert (SW : forall p, spawns (set_wpc s i p) = spawns s) by (intros; unfold set_wpc; rewrite Hw; reflexivity).
-      destruct (w_pc w) as [| |r|] eqn:P; try discriminate.
-      + destruct (w_stopped w); [inversion H; apply SW|]. destruct (child_alive s (w_child w)); [discriminate|].
-        inversion H; apply SW.
+      destruct (w_pc w) as [| | |r|] eqn:P; try discriminate.
+      + destruct (child_alive s (w_child w)); inversion H; apply SW.
+      + destruct (w_stopped w); inversion H; apply SW.
       + destruct (w_stopped w); inversion H; apply SW.
       + assert (Hr : rp s (TW i) = Some r) by (simpl; rewrite Hw; unfold wr; rewrite P; reflexivity).
         assert (N : r <> SSpawn).
@@ -300,9 +300,9 @@ Section Serial.
       inversion H; exact R.
     - destruct (nth_error (watchers s) i) as [w|] eqn:Hw; [|discriminate].
       assert (SW : forall p, mpcs (set_wpc s i p) = MReturned) by (intros; unfold set_wpc; rewrite Hw; exact R).
-      destruct (w_pc w) as [| |r|]; try discriminate.
-      + destruct (w_stopped w); [inversion H; apply SW|]. destruct (child_alive s (w_child w)); [discriminate|].
-        inversion H; apply SW.
+      destruct (w_pc w) as [| | |r|]; try discriminate.
+      + destruct (child_alive s (w_child w)); inversion H; apply SW.
+      + destruct (w_stopped w); inversion H; apply SW.
       + destruct (w_stopped w); inversion H; apply SW.
       + destruct r; try (destruct (rstep' (TW i) s _) as [[s1 r']|] eqn:Hs; [|discriminate]; inversion H; subst; clear H;
                          unfold set_wpc; destruct (nth_error (watchers s1) i); simpl;
